@@ -386,3 +386,20 @@ Proof. cbn [val_eqb]. rewrite andb_true_r. reflexivity. Qed.
 
 Lemma Qeqb_refl x : Qeqb x x = true.
 Proof. apply Qeqb_spec. reflexivity. Qed.
+
+(** int arrays given as [map (fun i => VZ (g i)) l]: array * int, array // int *)
+Lemma binop_arrZ_mul {A} (g : A -> Z) (l : list A) (k : Z) :
+  binop_val Mul (VA (map (fun i => VZ (g i)) l)) (VZ k) = Some (VA (map (fun i => VZ (g i * k)) l)).
+Proof. unfold binop_val. rewrite (map_opt_map_some _ _ (fun i => VZ (g i * k))); reflexivity. Qed.
+
+Lemma binop_arrZ_floordiv {A} (g : A -> Z) (l : list A) (k : Z) :
+  (k =? 0)%Z = false ->
+  binop_val FloorDiv (VA (map (fun i => VZ (g i)) l)) (VZ k) = Some (VA (map (fun i => VZ (g i / k)) l)).
+Proof.
+  intros H. unfold binop_val. rewrite (map_opt_map_some _ _ (fun i => VZ (g i / k))); [reflexivity|].
+  intros i. cbn [arith]. rewrite H. reflexivity.
+Qed.
+
+Lemma nth_val_last' {A} (f : A -> val) (l : list A) (d : A) (n : nat) :
+  l <> [] -> List.length l = n -> nth_val (map f l) (n - 1) = Some (f (last l d)).
+Proof. intros H <-. apply nth_val_last, H. Qed.
